@@ -9,12 +9,17 @@ package mailbox
 
 import (
 	"bytes"
+	"context"
 	"errors"
 	"fmt"
 	"time"
 
+	"github.com/btcsuite/btcd/btcec/v2"
+	"github.com/lightningnetwork/lnd/keychain"
 	"simrt"
 )
+
+type keychainKey = keychain.SingleKeyECDH
 
 var c16Payloads = []int{0, 1, 15, 16, 17, 100}
 
@@ -23,6 +28,16 @@ func init() {
 		Prop: "C16", Name: "fragmented-handshake", Enumerated: true, Count: fixed(41 * len(c16HsCfgs)),
 		Run: c16FragHandshake, MaxOps: 4 << 20, Horizon: time.Hour,
 		Doc: "XX and KK handshakes at every version over a stream whose every Read returns at most g bytes, for every fixed g in 1..40 and a random granularity; outcome and derived keys must equal those of the unfragmented run with the same keys",
+	})
+	simrt.Register(&simrt.Scenario{
+		Prop: "C16", Name: "record-behind-last-act", Enumerated: true, Count: fixed(len(c16HsCfgs) * len(c16Grains)),
+		Run: c16RecordBehindAct, MaxOps: 4 << 20, Horizon: time.Hour,
+		Doc: "the party that writes the last handshake act writes its first record immediately behind it (before the peer has read the act), and the stream hands out at most g bytes per Read for g in {1,2,7,16,19,33,50,64,100,512,4096,unlimited} - a Read may therefore return bytes from both sides of the act/record boundary; handshake and record must both arrive",
+	})
+	simrt.Register(&simrt.Scenario{
+		Prop: "C16", Name: "chunked-write-timeouts", Count: tiered(300, 120000),
+		Run: c16ChunkedWrite, MaxOps: 4 << 20, Horizon: time.Hour,
+		Doc: "NoiseConn.Write of 2-4 records' worth of data over a connection whose writes time out at 1-3 tape-chosen stream offsets; the caller resumes as documented (Flush until done, then Write the rest from the reported count); the reported counts must add up and the peer must read exactly the original bytes",
 	})
 	simrt.Register(&simrt.Scenario{
 		Prop: "C16", Name: "fragmented-records", Count: tiered(3000, 320000),
@@ -40,6 +55,8 @@ type c16HsCfg struct {
 	kk         bool
 	minV, maxV byte
 }
+
+var c16Grains = []int{1, 2, 7, 16, 19, 33, 50, 64, 100, 512, 4096, 0}
 
 var c16HsCfgs = []c16HsCfg{{false, 0, 0}, {false, 1, 1}, {false, 2, 2}, {false, 0, 2}, {true, 2, 2}}
 
@@ -316,4 +333,178 @@ func c16PartialWrites(rc *simrt.RunCtx) {
 	rc.ProbeN("c16.partitions", cases)
 	rc.Progress()
 	rc.Fault(fmt.Sprintf("partitions-%d", rc.Idx()))
+}
+
+func c16RecordBehindAct(rc *simrt.RunCtx) {
+	cfg := c16HsCfgs[rc.Idx()%len(c16HsCfgs)]
+	g := c16Grains[(rc.Idx()/len(c16HsCfgs))%len(c16Grains)]
+	pr := newPrng(uint64(rc.Idx()) + 777)
+	installEphemeralGen(pr)
+	ck, sk := pr.ecdh(), pr.ecdh()
+	pass := pr.bytes(14)
+	sp := hsSpec{cliPass: pass, srvPass: pass, cliKey: ck, srvKey: sk, auth: marker(3, 40), cMin: cfg.minV, cMax: cfg.maxV, sMin: cfg.minV, sMax: cfg.maxV}
+	if cfg.kk {
+		sp.cliRemote, sp.srvRemote = sk.PubKey(), ck.PubKey()
+	}
+	ca, cb := newDuplex()
+	if g > 0 {
+		frag := func() int { return g }
+		ca.in.frag, cb.in.frag = frag, frag
+	}
+	mkp := func(p hsSpec, key keychainKey, remote *btcec.PublicKey, auth []byte) (*ConnData, *NoiseGrpcConn) {
+		d := NewConnData(key, remote, pass, auth, nil, nil)
+		return d, NewNoiseGrpcConn(d, WithMinHandshakeVersion(cfg.minV), WithMaxHandshakeVersion(cfg.maxV))
+	}
+	_, ccreds := mkp(sp, ck, sp.cliRemote, nil)
+	_, screds := mkp(sp, sk, sp.srvRemote, sp.auth)
+	first := marker(11, 37)  // written by the initiator right behind its last act (XX: act 3)
+	second := marker(12, 41) // written by the responder right behind its last act (KK: act 2)
+	type res struct {
+		err error
+		got []byte
+	}
+	cd, sd := make(chan res, 1), make(chan res, 1)
+	ca.SetReadDeadline(time.Now().Add(time.Minute))
+	cb.SetReadDeadline(time.Now().Add(time.Minute))
+	go func() {
+		c, _, err := ccreds.ClientHandshake(context.Background(), "", ca)
+		if err != nil {
+			cd <- res{err, nil}
+			return
+		}
+		if _, err := c.Write(first); err != nil {
+			cd <- res{err, nil}
+			return
+		}
+		ca.SetReadDeadline(time.Now().Add(10 * time.Second))
+		buf := make([]byte, 4096)
+		n, err := c.Read(buf)
+		cd <- res{err, buf[:n]}
+	}()
+	go func() {
+		c, _, err := screds.ServerHandshake(cb)
+		if err != nil {
+			sd <- res{err, nil}
+			return
+		}
+		if _, err := c.Write(second); err != nil {
+			sd <- res{err, nil}
+			return
+		}
+		cb.SetReadDeadline(time.Now().Add(10 * time.Second))
+		buf := make([]byte, 4096)
+		n, err := c.Read(buf)
+		sd <- res{err, buf[:n]}
+	}()
+	cr, sr := <-cd, <-sd
+	what := fmt.Sprintf("kk=%v versions [%d,%d], reads return at most %d bytes (0 = unlimited)", cfg.kk, cfg.minV, cfg.maxV, g)
+	rc.Sample("%s: initiator %s, responder %s", what, describeErr(cr.err), describeErr(sr.err))
+	switch {
+	case sr.err != nil || !eqBytes(sr.got, first):
+		rc.Violate("c16.record-behind-act", "responder-lost-first-record", "%s: the initiator wrote a record right behind its last act; the responder's handshake + first Read: err=%v, got %d bytes (want %d)", what, sr.err, len(sr.got), len(first))
+	case cr.err != nil || !eqBytes(cr.got, second):
+		rc.Violate("c16.record-behind-act", "initiator-lost-first-record", "%s: the responder wrote a record right behind its last act; the initiator's handshake + first Read: err=%v, got %d bytes (want %d)", what, cr.err, len(cr.got), len(second))
+	}
+	rc.Progress()
+	rc.Fault(fmt.Sprintf("behind-act-%d", rc.Idx()))
+}
+
+// cutConn is a net.Conn whose Write accepts bytes only up to the next cut
+// offset of the outgoing stream and then reports a timeout.
+type cutConn struct {
+	*simConn
+	cuts []int
+	sent int
+}
+
+func (c *cutConn) Write(p []byte) (int, error) {
+	if len(c.cuts) > 0 && c.sent+len(p) > c.cuts[0] {
+		n := c.cuts[0] - c.sent
+		if n < 0 {
+			n = 0
+		}
+		c.cuts = c.cuts[1:]
+		k, _ := c.simConn.Write(p[:n])
+		c.sent += k
+		return k, timeoutErr{}
+	}
+	k, err := c.simConn.Write(p)
+	c.sent += k
+	return k, err
+}
+
+func c16ChunkedWrite(rc *simrt.RunCtx) {
+	s := establish(rc, rc.Pick(2, "knob.kk") == 1, 16)
+	if s == nil {
+		return
+	}
+	total := 65535*(1+rc.Pick(3, "wl.chunks")) + 1 + rc.Pick(65535, "wl.tail")
+	data := marker(rc.Seed()^5, total)
+	wire := total + (total/65535+1)*(encHeaderSize+macSize)
+	var cuts []int
+	pos := 0
+	for k := 0; k < 1+rc.Pick(3, "wl.ncuts"); k++ {
+		pos += 1 + rc.Pick(wire/2, "wl.cut")
+		if pos >= wire {
+			break
+		}
+		cuts = append(cuts, pos)
+	}
+	cc := &cutConn{simConn: s.ca, cuts: cuts}
+	w := &NoiseConn{conn: cc, noise: s.cli.conn.noise}
+	r := &NoiseConn{conn: s.cb, noise: s.srv.conn.noise}
+	rc.Knob("case", fmt.Sprintf("total=%d cuts=%v", total, cuts))
+	rc.Sample("Write of %d bytes (%d records), write timeouts at stream offsets %v", total, total/65535+1, cuts)
+	rdone := make(chan []byte, 1)
+	go func() {
+		var got []byte
+		s.cb.SetReadDeadline(time.Now().Add(30 * time.Second))
+		buf := make([]byte, 70000)
+		for len(got) < total {
+			n, err := r.Read(buf)
+			got = append(got, buf[:n]...)
+			if err != nil {
+				break
+			}
+		}
+		// anything beyond?
+		s.cb.SetReadDeadline(time.Now().Add(2 * time.Second))
+		if n, _ := r.Read(buf); n > 0 {
+			got = append(got, buf[:n]...)
+		}
+		rdone <- got
+	}()
+	// the writer, resuming after timeouts the documented way
+	accepted := 0
+	for attempts := 0; accepted < total && attempts < 20; attempts++ {
+		n, err := w.Write(data[accepted:])
+		accepted += n
+		if err == nil {
+			continue
+		}
+		var te interface{ Timeout() bool }
+		if !errors.As(err, &te) {
+			rc.Violate("c16.chunked-write", "write-error", "Write failed with a non-timeout error: %v", err)
+			return
+		}
+		rc.Fault("write-timeout")
+		// finish the pending record
+		for k := 0; k < 20; k++ {
+			m, ferr := w.Flush()
+			accepted += m
+			if ferr == nil {
+				break
+			}
+		}
+	}
+	got := <-rdone
+	if accepted != total {
+		rc.Violate("c16.chunked-write", "count-mismatch", "after resuming the counts reported by Write/Flush add up to %d, the buffer had %d bytes", accepted, total)
+		return
+	}
+	if !eqBytes(got, data) {
+		rc.Violate("c16.chunked-write", "peer-bytes-differ", "Write of %d bytes with timeouts at %v, resumed from the reported counts: the peer read %d bytes, first difference at %d", total, cuts, len(got), firstDiff(got, data))
+		return
+	}
+	rc.Progress()
 }
